@@ -30,7 +30,7 @@ EXPLANATION = (
     "state that every configuration path of set_fft_R_to_k re-assigns (so a re-configured Rvectors object cannot use stale "
     "grid-shift phases). An interprocedural may-alias analysis over FFT_R_to_k (objects: allocation sites, parameters, the pyfftw plan's "
     "buffers) decides that no array handed to the plan as input is returned to a caller and that the plan's output buffer is copied "
-    "before it is returned; Data_K_R must configure a private copy of the R-vectors. Not decided: numerical agreement to rounding. Trusted: numpy/pyFFTW inverse transforms carry 1/N.")
+    "before it is returned; Data_K_R must configure a private copy of the R-vectors. The back-end selector self.lib may only hold lower-case literals or values that went through .lower() (typestate of a string against the literals the dispatch compares with), attributes read by the cached phase tables are assigned only in the constructor, and block-wise loops must cover the whole axis (ceil, not floor, number of blocks). Not decided: numerical agreement to rounding. Trusted: numpy/pyFFTW inverse transforms carry 1/N.")
 
 FF = "wannierberri/fourier/fft.py"
 RV = "wannierberri/fourier/rvectors.py"
@@ -360,7 +360,7 @@ def run(ctx) -> None:
             v_, why_, desc_ = res_
             r4.instance(f"{m_.short}: block loop {desc_}")
             if v_ is None:
-                r4.expect(False, "", m_, lp_, f"{m_.qualname}: block loop `{desc_}`: the number of blocks is not in a form that can be decided")
+                r4.note(f"{m_.short}: loop `{desc_}` slices by the loop variable but is not a recognised block loop (no claim)")
             else:
                 r4.check(v_, f"{m_.name}: the blocks cover the whole axis", m_, lp_, f"{m_.qualname}: {why_}: those entries of X(R) are transformed without "
                          f"the factor the other entries get, so the result depends on where an orbital sits in the list")
